@@ -1,14 +1,17 @@
 """C04 -- macro expansion preserves the meaning of the program."""
 from .. import sx, gen, lib, meaning as M, monitors, minimise
+from . import builder_route
 from .common import header_diff, native_names, prog_features, sig, case_prog
 
 RULE = ("random programs with 0-4 macros (call DAG among earlier macros, parameters used as qubit / number / index / "
         "loop count / register and passed on, sequential and parallel bodies, calls from top level, seq, par, loop and "
-        "subcircuit contexts, parameters shadowing header names); oracle = reference call-by-substitution applied to the "
+        "subcircuit contexts, parameters shadowing header names); a quarter of the circuits are assembled through the "
+        "object-oriented CircuitBuilder API (objects built at once or unevaluated, at random) instead of parsed, and a third of "
+        "the calls follow a call with the other preserve_definitions value on the same object; oracle = reference call-by-substitution applied to the "
         "input IR object; non-trivial = the program contains at least one macro call; distinct = S-expression + flags")
 ASSUMPTIONS = ["reference substitution semantics in vf/meaning.py (written from the Jaqal rules, shares no code with expand_macros.py)"]
 TIERS = {"quick": {"shards": 8, "budget_s": 40}, "thorough": {"shards": 16, "budget_s": 300}}
-REQUIRE = {"calls": 200, "nested-macro-programs": 20, "ctx:loop": 10, "ctx:par": 10, "ctx:sub": 5, "wrong-arity-probes": 20,
+REQUIRE = {"circuits-built-through-CircuitBuilder": 1000, "calls-after-earlier-call-on-same-object": 1000, "calls": 200, "nested-macro-programs": 20, "ctx:loop": 10, "ctx:par": 10, "ctx:sub": 5, "wrong-arity-probes": 20,
            "preserve:True": 50, "preserve:False": 50}
 
 
@@ -38,6 +41,13 @@ def judge(case):
     if o[0] != "ok":
         return "skipped:input-rejected:" + o[1], []
     c = o[1]
+    if case.get("bseed") is not None:
+        # the same program assembled through the object-oriented CircuitBuilder API, objects built
+        # at once or unevaluated at random (see builder_route)
+        ob = lib.outcome(builder_route.via_builder, prog, case["bseed"])
+        if ob[0] != "ok":
+            return "skipped:builder-route-rejected:" + ob[1], []
+        c = ob[1][0]
     try:
         kc = M.core_from_ir(c)
         expected = M.meaning(kc, expand_macros=True, expand_a1=True)
@@ -46,6 +56,9 @@ def judge(case):
     except M.OracleError as ex:
         return "inconclusive:oracle:%s" % ex, []
     fails = []
+    if case.get("prior"):
+        # an earlier call on the SAME circuit object with the other option must leave nothing behind
+        lib.outcome(lib.expand_macros, c, preserve_definitions=not preserve)
     o = lib.outcome(lib.expand_macros, c, preserve_definitions=preserve)
     if o[0] == "jaqal":
         return "ok", [("rejected-valid-program", {"error": o[2]})]
@@ -145,7 +158,7 @@ def process(ctx, case, seen, probe=True):
     macros = {s[1] for s in prog[1:] if s[0] == "macro"}
     ncalls = sum(1 for s in sx.walk(prog) if s[0] == "gate" and s[1] in macros)
     st, fails = judge(case)
-    rec.case([prog, case.get("preserve")], nontrivial=ncalls > 0)
+    rec.case([prog, case.get("preserve"), case.get("bseed")], nontrivial=ncalls > 0)
     rec.count("preserve:%s" % bool(case.get("preserve")))
     if st != "ok":
         rec.count(":".join(st.split(":")[:2]))
@@ -163,10 +176,20 @@ def process(ctx, case, seen, probe=True):
         if seen[key] > 2:
             rec.count("unminimised-repeat:" + clause)
             continue
-        small = minimise.minimise(prog, lambda p: clause in _clauses({"prog": p, "preserve": case.get("preserve")}), budget=250)
-        small_case = {"prog": small, "preserve": case.get("preserve")}
+        base = {"preserve": case.get("preserve")}
+        if case.get("bseed") is not None and clause not in _clauses(dict(base, prog=prog)):
+            base["bseed"] = case["bseed"]
+        if case.get("prior") and clause not in _clauses(dict(base, prog=prog)):
+            base["prior"] = True
+        small = minimise.minimise(prog, lambda p: clause in _clauses(dict(base, prog=p)), budget=250)
+        small_case = dict(base, prog=small)
         d2 = [f for f in judge(small_case)[1] if f[0] == clause]
-        rec.violation(sig("C04", clause, prog_features(small)), d2[0][1] if d2 else detail, small_case)
+        feats = prog_features(small)
+        if base.get("prior"):
+            feats.add("after-earlier-call-on-same-object")
+        if base.get("bseed") is not None:
+            feats.add("circuit-built-through-CircuitBuilder")
+        rec.violation(sig("C04", clause, feats), d2[0][1] if d2 else detail, small_case)
     if probe and macros:
         o = lib.outcome(lib.parse, sx.to_text(prog))
         if o[0] == "ok":
@@ -188,6 +211,12 @@ def shard(ctx):
                         body_len=(1, 6), wild_numbers=rng.random() < 0.3)
         prog = g.program()
         case = {"prog": prog, "preserve": rng.random() < 0.5}
+        if rng.random() < 0.3:
+            case["prior"] = True
+            rec.count("calls-after-earlier-call-on-same-object")
+        if rng.random() < 0.25:
+            case["bseed"] = rng.randrange(1 << 30)
+            rec.count("circuits-built-through-CircuitBuilder")
         process(ctx, case, seen, probe=(i % 10 == 0))
         if i <= 3:
             rec.sample({"preserve": case["preserve"], "text": sx.to_text(prog)})
